@@ -6,6 +6,8 @@
    dense LCG operands of n and m digits.
    - C20_erasure / C20_cost_defined: the instrumented model computes the same values as the C02
      model (which C02 proves exact), for ALL operands — the counter is well defined.
+   - C20_quadratic: for ALL canonical operands the work is at most |a|·|b| (the third criterion,
+     universally; proved by induction, no evaluation).
    - C20_bank: the kernel evaluates the bank products (each once, vm) and the criteria hold:
      cost(2n) <= 3.25 cost(n), unbalanced (and balanced) cost <= lx*ly.
      Quick part here: n = 256, 512, 1024; 256x511, 256x512, 512x1023, 512x1024.
@@ -15,7 +17,7 @@
      compares the model's count with the implementation's counter exactly (driver vs hook)
      and decides the criteria on the implementation's counts (tools/gen/c20.py). *)
 From BigNum Require Import Base BaseLemmas X86 AddSub AddSubProofs Mul MulCost
-  MulProofs MulProofs5 MulCostProofs MulCostBank Extracted InstMul.
+  MulProofs MulProofs5 MulCostProofs MulCostQuad MulCostBank Extracted InstMul InstMulCost.
 Open Scope Z_scope.
 
 Theorem C20_erasure : forall a b, umul mul a b = omap fst (umul_c mul a b).
@@ -26,6 +28,14 @@ Theorem C20_cost_defined : forall a b, canon a -> canon b ->
   exists w, umul_c mul a b = Ret (enc (val a * val b), w) /\ cost mul a b = Ret w.
 Proof. intros a b Ha Hb. apply cost_defined. apply umul_spec; auto using mul_params_ok. Qed.
 Print Assumptions C20_cost_defined.
+
+(** "Unbalanced products cost no more than the schoolbook count" — for ALL operands of any
+    length and shape (not only the bank): the work of a product is at most |a|·|b|. *)
+Theorem C20_quadratic : forall a b, canon a -> canon b ->
+  exists w, umul_c mul a b = Ret (enc (val a * val b), w) /\ cost mul a b = Ret w /\
+            0 <= w <= lenZ a * lenZ b.
+Proof. intros; apply cost_quadratic; auto using cost_params_ok. Qed.
+Print Assumptions C20_quadratic.
 
 Theorem C20_bank :
   exists c256 c512 c1024 u1 u2 u3 u4,
